@@ -579,6 +579,29 @@ def impl_ctor(k, n, b, cb):
   return ('A', tab(d.bounds), cb_back(d.cbounds))
 
 
+def impl_ctor_hist(k, n, b, cb):
+  """The same decision reached through a HISTORY on one object: built with another (wider) bounds table and a cumulative bound that is
+  validated once, the cumulative bound cleared, `bounds` re-assigned to b, then `cbounds` assigned.  Nothing derived from the first
+  table may survive the re-assignment (seeded C11_11: a prefix-sum memo of the bounds the `bounds` setter never invalidates)."""
+  d = make(k, n, [[-3, 4]] * n, [[-1, 1, 0, n]])
+  d.cbounds = None
+  d.bounds = to_py(b)
+  cb = to_py(cb)
+  if isinstance(cb, list):
+    cb = [tuple(e) if isinstance(e, list) else e for e in cb]
+  try:
+    d.cbounds = cb
+  except ValueError:
+    return ('V',)
+  except Exception:
+    return ('O',)
+  return ('A', tab(d.bounds), cb_back(d.cbounds))
+
+
+def impl_cb(c, k, cb):
+  return (impl_ctor_hist if c.get('hist') else impl_ctor)(k, c['n'], c['b'], cb)
+
+
 def io_vb(o):
   if o[0] == 'A':
     return 'VA[' + ';'.join('[' + ';'.join(cell_lit(e) for e in row) + ']' for row in o[1]) + ']'
@@ -617,6 +640,9 @@ def gen_cases(rng, tier):
       for c in chunks(cb_domain(n), 350):
         out.append({'kind': 'cb', 'ks': full, 'n': n, 'b': t, 'cbs': c})
         ncb += len(c) * len(full)
+        # and once more through a history on one object (see impl_ctor_hist): same model outcome expected
+        out.append({'kind': 'cb', 'ks': ['CDev', 'CC'], 'n': n, 'b': t, 'cbs': c, 'hist': True})
+        ncb += len(c) * 2
       if rest:
         for c in chunks(cb_domain(n, small=True), 100):
           out.append({'kind': 'cb', 'ks': rest, 'n': n, 'b': t, 'cbs': c})
@@ -628,7 +654,7 @@ def gen_cases(rng, tier):
           '(%d values) x device lengths 1..5 = %d calls; constructors: %d bounds values x lengths 1..5 x 11 classes (Device, PVDevice, GDevice, '
           'CDevice, CDevice2, IDevice, IDevice2, SDevice, ADevice, TDevice, WindowDevice) = %d calls; cumulative bounds: None / scalar / pair / lists of '
           '4-tuples over values {-1,0,1,2,n,n+1} and slice indices {0,1,n,None,-1,n+1}, wrong arities, nested forms x 2-3 bounds tables x lengths 1..5 x 11 '
-          'classes (quick tier: the full slice-index grid for Device and CDevice2, four index pairs for the other classes) = %d calls; parameters: %d constructor calls at every threshold and threshold +- 2^-6 (scalar, per-slot, wrong-length vectors, both '
+          'classes (quick tier: the full slice-index grid for Device and CDevice2, four index pairs for the other classes; the full grid once more for Device and CDevice through a history on one object - built with a wider table and a validated cumulative bound, bounds re-assigned, then cbounds assigned) = %d calls; parameters: %d constructor calls at every threshold and threshold +- 2^-6 (scalar, per-slot, wrong-length vectors, both '
           'orders of the coupled pairs p_l/p_h and c1/c2, pair/single rate_clip, the TDevice / MFDeviceSet / TwoRatioMFDeviceSet guard blocks). Outcome '
           '(accepted / ValueError / other exception) and the reported bounds table, cbounds and parameter values are compared exactly inside Coq. '
           'A case is one block of inputs; non-trivial = the block contains accepted and rejected inputs. Inputs inside the region of an open finding '
@@ -647,7 +673,7 @@ def observe_(c):
   if k == 'ct':
     return {'outs': [[[('Z',) if in_open_region(n, b, kk) else impl_ctor(kk, n, b, None) for b in c['bs']] for n in c['ns']] for kk in c['ks']]}
   if k == 'cb':
-    return {'outs': [[impl_ctor(kk, c['n'], c['b'], cb) for cb in c['cbs']] for kk in c['ks']]}
+    return {'outs': [[impl_cb(c, kk, cb) for cb in c['cbs']] for kk in c['ks']]}
   return {'outs': [par_observe(*it) for it in c['items']]}
 
 
@@ -692,6 +718,8 @@ def nontrivial(c, o):
 
 def classify(c, o):
   ks = ['kind:' + c['kind'], 'numbers:' + c.get('form', 'plain')]
+  if c.get('hist'):
+    ks.append('history:bounds-reassigned-before-cbounds')
   cnt = {}
 
   def walk(x):
@@ -920,7 +948,7 @@ def oracle_(c):
       for cb in c['cbs']:
         if kk in ('CPV', 'CG') and any(r[1] > 0 for r in c['b']):
           continue
-        why = oracle_cb(c['n'], c['b'], cb, impl_ctor(kk, c['n'], c['b'], cb), kk)
+        why = oracle_cb(c['n'], c['b'], cb, impl_cb(c, kk, cb), kk + (' (bounds re-assigned, then cbounds assigned)' if c.get('hist') else ''))
         if why:
           return why
   else:
@@ -953,7 +981,7 @@ def shrink(c, why):
   elif k == 'cb':
     for kk in c['ks']:
       for cb in c['cbs']:
-        one = {'kind': 'cb', 'ks': [kk], 'n': c['n'], 'b': c['b'], 'cbs': [cb]}
+        one = {'kind': 'cb', 'ks': [kk], 'n': c['n'], 'b': c['b'], 'cbs': [cb], 'hist': bool(c.get('hist'))}
         w = oracle(one)
         if w:
           return one, w
